@@ -9,6 +9,6 @@ git apply $PATCH
 # development run: never touches the committed evidence files
 /verif/bin/govc check -property $P -tier quick -no-evidence -outdir /tmp/try_seed_out_$S > /tmp/try_seed_$S.log 2>&1; rc=$?
 rm -rf /tmp/try_seed_out_$S
-git -C /repo checkout -f HEAD -- . ; git -C /repo reset -q --hard HEAD
+git -C /repo apply -R $PATCH || { echo "could not revert $S: restoring tracked files"; git -C /repo stash -q; }
 grep -E "^(VIOLATION|KNOWN|UNDECIDED|ENGINE|property=)" /tmp/try_seed_$S.log | cut -c1-260
 echo "seed=$S property=$P exit=$rc"
